@@ -17,6 +17,7 @@
 package ev
 
 import (
+	"time"
 	"bufio"
 	"crypto/sha256"
 	"encoding/binary"
@@ -568,3 +569,30 @@ func (e *Enumerator) Report(cs any, o Outcome, err error) bool {
 	}
 	return true
 }
+
+// Await waits for a value that a terminating computation delivers within moments. A busy machine
+// must not be mistaken for a hang: after the soft limit the wait goes on (the computation keeps
+// running) until the hard limit; ok is false only when nothing arrived by then.
+func Await[T any](done <-chan T, soft, hard time.Duration) (v T, ok bool) {
+	t := time.NewTimer(soft)
+	defer t.Stop()
+	select {
+	case v = <-done:
+		return v, true
+	case <-t.C:
+	}
+	if hard > soft {
+		t2 := time.NewTimer(hard - soft)
+		defer t2.Stop()
+		select {
+		case v = <-done:
+			return v, true
+		case <-t2.C:
+		}
+	}
+	return v, false
+}
+
+// HangLimit is the hard limit used with Await: what takes milliseconds and has not finished
+// after five minutes does not terminate.
+const HangLimit = 5 * time.Minute
